@@ -191,9 +191,9 @@ Proof.
     rewrite Er, Hb. discriminate.
 Qed.
 
-Lemma subcommand_details_total c d b : c_bin c = Some b -> linked c -> subcommand_details c d <> None.
+Lemma subcommand_details_total c d b : c_bin c = Some b -> linked c -> zsubcommand_details c d <> None.
 Proof.
-  intros Hb Hl. unfold subcommand_details. rewrite Hb.
+  intros Hb Hl. unfold zsubcommand_details. rewrite Hb.
   destruct (all_subcommands_spec c (linked_bins_built _ Hl)) as (l & El & Hspec). rewrite El.
   match goal with |- match map_opt ?F ?L with _ => _ end <> None => destruct (map_opt_total F L) as [r Er] end.
   { intros x Hin. apply dedup_in, sort_in, in_map_iff in Hin. destruct Hin as ([w b'] & <- & Hin). cbn [snd].
@@ -215,7 +215,7 @@ Proof.
   2:{ exfalso. revert Ea. apply get_args_of_total. rewrite Hb; discriminate. }
   destruct (get_subcommands_of (depth c) c d) as [sc|] eqn:Es.
   2:{ exfalso. revert Es. apply (get_subcommands_of_total _ _ _ _ Hb Hl). lia. }
-  destruct (subcommand_details c d) as [de|] eqn:Ed.
+  destruct (zsubcommand_details c d) as [de|] eqn:Ed.
   2:{ exfalso. revert Ed. apply (subcommand_details_total _ _ _ Hb Hl). }
   eexists; reflexivity.
 Qed.
@@ -285,7 +285,7 @@ Proof.
   - apply IH; assumption.
 Qed.
 
-Lemma beq_neq (a b : bytes) : a <> b -> beq a b = false.
+Lemma beq_neq_false (a b : bytes) : a <> b -> beq a b = false.
 Proof. intros H. destruct (beq a b) eqn:E; [|reflexivity]. apply beq_eq in E. contradiction. Qed.
 
 (** a node found in the subtree of the child [x] under the bin name of a node in the subtree of the child [sc]: [x = sc] *)
@@ -322,7 +322,7 @@ Proof.
   induction c as [nm al args subs bin h v s g IH] using cmd_ind'. intros b n Hb Hl Hns Hsn Hn.
   set (c := mkCmd nm al args subs bin h v s g) in *.
   rewrite parser_of_unfold. destruct Hn as [->|Hd]; [rewrite beq_refl; reflexivity|].
-  rewrite beq_neq.
+  rewrite beq_neq_false.
   2:{ destruct (subtree_bin _ _ _ Hl Hb (or_intror Hd)) as (r & En & Hr). unfold bin_or_default. rewrite En, Hb.
       destruct (desc_reach _ _ Hd) as [ns Hreach]. pose proof (reach_bin _ _ _ _ Hreach _ Hb Hl) as En'.
       rewrite En in En'. inversion En' as [E']. apply app_inv_head in E'. subst r.
@@ -344,7 +344,7 @@ Proof.
 Qed.
 
 (** ---- the subcommand section, structurally ---- *)
-Lemma zipd_in_fst {A B} (dflt : B) (l : list A) : forall m a b, In (a, b) (zipd dflt l m) -> In a l.
+Lemma zipd_in_l {A B} (dflt : B) (l : list A) : forall m a b, In (a, b) (zipd dflt l m) -> In a l.
 Proof.
   induction l as [|h t IH]; intros m a b; cbn [zipd In]; [tauto|].
   intros [E|Hin]; [inversion E; left; reflexivity|right; eapply IH; exact Hin].
@@ -357,8 +357,8 @@ Proof.
   cbn [map] in Hn. inversion Hn as [|x y Hnot Hn']; subst.
   intros [E|Hin] [E'|Hin'].
   - inversion E; inversion E'; subst. reflexivity.
-  - inversion E; subst. exfalso. apply Hnot. apply in_map. eapply zipd_in_fst; exact Hin'.
-  - inversion E'; subst. exfalso. apply Hnot. apply in_map. eapply zipd_in_fst; exact Hin.
+  - inversion E; subst. exfalso. apply Hnot. apply in_map. eapply zipd_in_l; exact Hin'.
+  - inversion E'; subst. exfalso. apply Hnot. apply in_map. eapply zipd_in_l; exact Hin.
   - eapply IH; eauto.
 Qed.
 
@@ -383,16 +383,16 @@ Lemma parser_of_d_child p d pb sc sd :
   In (sc, sd) (zipd cd0 (c_subs p) (cd_subs d)) ->
   parser_of_d p d (pb ++ [32] ++ c_name sc) = Some (sc, sd).
 Proof.
-  intros Hl Hb Hns Hsn Hin. pose proof (zipd_in_fst _ _ _ _ _ Hin) as Hsc.
+  intros Hl Hb Hns Hsn Hin. pose proof (zipd_in_l _ _ _ _ _ Hin) as Hsc.
   pose proof (linked_child_bin _ _ _ Hl Hb Hsc) as Esc.
   assert (Hself : forall sd', parser_of_d sc sd' (pb ++ [32] ++ c_name sc) = Some (sc, sd')).
   { intros sd'. rewrite parser_of_d_unfold. unfold bin_or_default. rewrite Esc, beq_refl. reflexivity. }
-  rewrite parser_of_d_unfold. rewrite beq_neq.
+  rewrite parser_of_d_unfold. rewrite beq_neq_false.
   2:{ unfold bin_or_default. rewrite Hb. intros E. symmetry in E. revert E. apply app_not_self. discriminate. }
   apply (first_some_only _ _ (sc, sd)); [exact Hin|apply Hself|].
   intros [x xd] Hx. cbn [fst snd].
   destruct (parser_of_d x xd (pb ++ [32] ++ c_name sc)) as [[m md]|] eqn:Em; [right|left; reflexivity].
-  pose proof (zipd_in_fst _ _ _ _ _ Hx) as Hx'.
+  pose proof (zipd_in_l _ _ _ _ _ Hx) as Hx'.
   destruct (parser_of_sound _ _ _ (parser_of_d_inv _ _ _ _ _ Em)) as [Hm Hbm].
   assert (x = sc).
   { apply (same_child p pb x sc m sc Hl Hb Hns Hsn Hx' Hsc Hm (or_introl eq_refl)).
@@ -412,7 +412,7 @@ Qed.
 
 (** one arm of [case $line[pos] in]: the label, the [_arguments] block of the subcommand, its own subcommand section *)
 Definition arm (blk ch : list zpiece) (w : bytes) : list zpiece :=
-  zjoin nl ([[Zx (lit "(" ++ w ++ lit ")")]]
+  zjoin znl ([[Zx (lit "(" ++ w ++ lit ")")]]
             ++ (if negb (is_nil blk) then [blk] else [])
             ++ (if negb (is_nil ch) then [ch] else [])
             ++ [[Zx (lit ";;")]]).
@@ -422,9 +422,9 @@ Fixpoint zspec_subs (p : cmd) (d : cdesc) {struct p} : list zpiece :=
   match p with
   | mkCmd name _ _ subs bin _ _ _ _ =>
       if is_nil subs then [] else
-      case_block name (space_to_hyphen (match bin with Some b => b | None => [] end))
+      zcase_block name (space_to_hyphen (match bin with Some b => b | None => [] end))
                  (dec (N.of_nat (List.length (get_positionals p)) + 1))
-                 (zjoin nl ((fix go (l : list cmd) (dl : list cdesc) {struct l} : list (list zpiece) :=
+                 (zjoin znl ((fix go (l : list cmd) (dl : list cdesc) {struct l} : list (list zpiece) :=
                                match l with
                                | [] => []
                                | sc :: t =>
@@ -440,8 +440,8 @@ Definition arms_of (p : cmd) (q : cmd * cdesc) : list (list zpiece) :=
 Lemma zspec_subs_unfold p d :
   zspec_subs p d =
   if is_nil (c_subs p) then [] else
-  case_block (c_name p) (space_to_hyphen (bin_or_default p)) (dec (N.of_nat (List.length (get_positionals p)) + 1))
-             (zjoin nl (flat_map (arms_of p) (zipd cd0 (c_subs p) (cd_subs d)))).
+  zcase_block (c_name p) (space_to_hyphen (bin_or_default p)) (dec (N.of_nat (List.length (get_positionals p)) + 1))
+             (zjoin znl (flat_map (arms_of p) (zipd cd0 (c_subs p) (cd_subs d)))).
 Proof.
   destruct p as [n al args subs bin h v s g]. cbn [zspec_subs c_subs c_name]. unfold bin_or_default. cbn [c_bin].
   destruct (is_nil subs); [reflexivity|]. f_equal. f_equal.
@@ -508,7 +508,7 @@ Proof.
     erewrite map_opt_flat_map with (h := arms_of p).
     + rewrite Hb. unfold bin_or_default. rewrite Hb. reflexivity.
     + intros [sc sd] Hin. cbn [fst]. unfold arms_of. cbn [fst snd].
-      pose proof (zipd_in_fst _ _ _ _ _ Hin) as Hsc.
+      pose proof (zipd_in_l _ _ _ _ _ Hin) as Hsc.
       pose proof (linked_child_bin _ _ _ Hl Hb Hsc) as Esc.
       apply map_opt_map_map. intros w Hw. cbn [fst snd]. unfold bin_or_default. rewrite Esc.
       rewrite (parser_of_d_child p d pb sc sd Hl Hb Hns Hsn Hin).
@@ -576,7 +576,7 @@ Qed.
 (** ---- one level: the [_arguments] block mentions every spelling ---- *)
 Lemma args_block_shape c d g :
   c_bin c <> None ->
-  exists segs, args_block c d g = zjoin nl (args_header :: segs) /\
+  exists segs, args_block c d g = zjoin znl (args_header :: segs) /\
     (write_opts_of c d g <> [] -> In (write_opts_of c d g) segs) /\
     (write_flags_of c d g <> [] -> In (write_flags_of c d g) segs) /\
     (write_positionals_of c d <> [] -> In (write_positionals_of c d) segs) /\
@@ -607,11 +607,11 @@ Qed.
 
 Lemma in_block c d g x lines :
   c_bin c <> None -> In x lines -> x <> [] ->
-  (zjoin nl lines = write_opts_of c d g \/ zjoin nl lines = write_flags_of c d g \/
-   zjoin nl lines = write_positionals_of c d) ->
+  (zjoin znl lines = write_opts_of c d g \/ zjoin znl lines = write_flags_of c d g \/
+   zjoin znl lines = write_positionals_of c d) ->
   sublist x (args_block c d g).
 Proof.
-  intros Hb Hin Hx Hw. pose proof (sublist_zjoin nl x lines Hin) as Hs.
+  intros Hb Hin Hx Hw. pose proof (sublist_zjoin znl x lines Hin) as Hs.
   pose proof (sublist_nonnil _ _ Hs Hx) as Hn.
   destruct (args_block_shape c d g Hb) as (segs & -> & Ho & Hf & Hp & _).
   eapply sublist_trans; [exact Hs|]. apply sublist_zjoin. right.
@@ -651,7 +651,7 @@ Definition flag_spellings (a : arg) : list (bytes * bytes) :=
       | None => [] end).
 
 Lemma flag_lines_spellings c g p :
-  flag_lines c g p = map (fun x : bytes * bytes => flag_line c g p (fst x) (snd x)) (flag_spellings (fst p)).
+  flag_lines c g p = map (fun x : bytes * bytes => zflag_line c g p (fst x) (snd x)) (flag_spellings (fst p)).
 Proof.
   unfold flag_lines, flag_spellings. rewrite map_app. f_equal.
   - destruct (a_short (fst p)); [|reflexivity]. cbn [map fst snd]. f_equal.
@@ -662,7 +662,7 @@ Qed.
 
 Theorem block_flag_lines c d g a ad dashes name :
   c_bin c <> None -> In (a, ad) (zipd ad0 (c_args c) (cd_args d)) -> is_flag (a, ad) = true ->
-  In (dashes, name) (flag_spellings a) -> sublist (flag_line c g (a, ad) dashes name) (args_block c d g).
+  In (dashes, name) (flag_spellings a) -> sublist (zflag_line c g (a, ad) dashes name) (args_block c d g).
 Proof.
   intros Hb Hin Hf Hs. eapply (in_block c d g _); [exact Hb| |discriminate|right; left; reflexivity].
   apply in_flat_map. exists (a, ad). split; [apply filter_In; split; assumption|].
@@ -703,15 +703,15 @@ Proof. intros Hx Hq. eapply sublist_in; [apply sublist_zjoin; exact Hx|exact Hq]
 
 Theorem value_completion_mentions a ad vs pv :
   possible_values a = Some vs -> In pv vs -> pv_hide pv = false ->
-  exists val x, value_completion (a, ad) = Some val /\ In (Zx x) val /\
+  exists val x, zvalue_completion (a, ad) = Some val /\ In (Zx x) val /\
     (sublist (pv_name pv) x \/ sublist (zsh_escape_value (pv_name pv)) x).
 Proof.
-  intros Hv Hin Hh. unfold value_completion. cbn [fst snd]. rewrite Hv.
+  intros Hv Hin Hh. unfold zvalue_completion. cbn [fst snd]. rewrite Hv.
   destruct (existsb _ _).
   - destruct (zipd_has None vs pv Hin (ad_pvh ad)) as [h Hq].
     eexists. exists (zsh_escape_value (pv_name pv) ++ lit "\:"""). split; [reflexivity|]. split.
     + apply in_or_app. right. apply in_or_app. left.
-      apply (in_zjoin nl (tip_entry (pv, h))).
+      apply (in_zjoin znl (tip_entry (pv, h))).
       * apply in_map. apply filter_In. split; [exact Hq|]. unfold pv_shown. cbn [fst]. rewrite Hh. reflexivity.
       * left. reflexivity.
     + right. exists [], (lit "\:"""). reflexivity.
@@ -722,7 +722,7 @@ Qed.
 
 (** an option that REQUIRES a value carries its value list on every one of its lines *)
 Lemma opt_vc_values p val :
-  a_min_values (fst p) <> 0 -> value_completion p = Some val -> sublist (Zx (lit ": :") :: val) (opt_vc p).
+  a_min_values (fst p) <> 0 -> zvalue_completion p = Some val -> sublist (Zx (lit ": :") :: val) (opt_vc p).
 Proof.
   intros Hm Hv. unfold opt_vc. rewrite Hv.
   destruct (N.to_nat (a_min_values (fst p))) as [|k] eqn:E; [lia|].
@@ -790,14 +790,14 @@ Definition script_tail (name : bytes) : bytes :=
     section, the [_..._commands] functions, the fixed tail *)
 Theorem zsh_pieces_shape c d b :
   zsh_ok c b ->
-  exists details, subcommand_details c d = Some details /\
+  exists details, zsubcommand_details c d = Some details /\
     zsh_pieces c d = Some ([Zx (script_head b)] ++ args_block c d None ++ zspec_subs c d
                            ++ [Zx (lf ++ lit "}" ++ lf ++ lf)] ++ details ++ [Zx (script_tail b)]).
 Proof.
   intros [Hb Hl Hns Hsn]. unfold zsh_pieces. rewrite Hb.
   rewrite (get_args_of_block c d None) by (rewrite Hb; discriminate).
   rewrite (get_subcommands_of_spec (depth c) c d b Hb Hl Hns Hsn (le_n _)).
-  destruct (subcommand_details c d) as [de|] eqn:Ed.
+  destruct (zsubcommand_details c d) as [de|] eqn:Ed.
   2:{ exfalso. revert Ed. apply (subcommand_details_total _ _ _ Hb Hl). }
   exists de. split; reflexivity.
 Qed.
@@ -814,8 +814,8 @@ Inductive dreach : cmd -> cdesc -> list bytes -> cmd -> cdesc -> cmd -> Prop :=
 Lemma dreach_desc p d ws n nd par : dreach p d ws n nd par -> desc p n /\ (par = p \/ desc p par) /\ In n (c_subs par).
 Proof.
   induction 1 as [p d sc sd w Hin Hw|p d sc sd w ws n nd par Hin Hw Hr IH].
-  - pose proof (zipd_in_fst _ _ _ _ _ Hin) as Hsc. split; [apply desc_child; exact Hsc|]. split; [left; reflexivity|exact Hsc].
-  - pose proof (zipd_in_fst _ _ _ _ _ Hin) as Hsc. destruct IH as (Hd & Hp & Hn).
+  - pose proof (zipd_in_l _ _ _ _ _ Hin) as Hsc. split; [apply desc_child; exact Hsc|]. split; [left; reflexivity|exact Hsc].
+  - pose proof (zipd_in_l _ _ _ _ _ Hin) as Hsc. destruct IH as (Hd & Hp & Hn).
     split; [eapply desc_step; eauto|]. split; [|exact Hn]. right.
     destruct Hp as [->|Hp]; [apply desc_child; exact Hsc|eapply desc_step; eauto].
 Qed.
@@ -823,7 +823,7 @@ Qed.
 Lemma dreach_has_subs p d ws n nd par : dreach p d ws n nd par -> c_subs p <> [].
 Proof.
   intros H E. inversion H as [p0 d0 sc sd w Hin|p0 d0 sc sd w ws0 n0 nd0 par0 Hin]; subst;
-    apply zipd_in_fst in Hin; rewrite E in Hin; destruct Hin.
+    apply zipd_in_l in Hin; rewrite E in Hin; destruct Hin.
 Qed.
 
 (** every [reach] path has its decorated version *)
@@ -842,11 +842,11 @@ Proof.
   destruct segs; discriminate.
 Qed.
 
-Lemma case_block_sub name hy pos body : sublist body (case_block name hy pos body).
-Proof. unfold case_block. apply sublist_here. Qed.
+Lemma case_block_sub name hy pos body : sublist body (zcase_block name hy pos body).
+Proof. unfold zcase_block. apply sublist_here. Qed.
 
 Lemma arm_shape blk ch w : blk <> [] ->
-  exists rest, arm blk ch w = [Zx (lit "(" ++ w ++ lit ")")] ++ nl ++ blk ++ rest /\
+  exists rest, arm blk ch w = [Zx (lit "(" ++ w ++ lit ")")] ++ znl ++ blk ++ rest /\
                (ch <> [] -> sublist ch rest).
 Proof.
   intros Hb. unfold arm. destruct blk as [|b0 blk]; [contradiction|]. cbn [is_nil negb app].
@@ -867,7 +867,7 @@ Lemma arm_in_section p d sc sd w :
   sublist (arm (args_block sc sd (Some p)) (zspec_subs sc sd) w) (zspec_subs p d).
 Proof.
   intros Hin Hw. rewrite (zspec_subs_unfold p d).
-  pose proof (zipd_in_fst _ _ _ _ _ Hin) as Hsc.
+  pose proof (zipd_in_l _ _ _ _ _ Hin) as Hsc.
   assert (Hnn : is_nil (c_subs p) = false) by (destruct (c_subs p); [destruct Hsc|reflexivity]).
   rewrite Hnn.
   eapply sublist_trans; [|apply case_block_sub]. apply sublist_zjoin.
@@ -879,15 +879,15 @@ Qed.
     are a contiguous part of the subcommand section -- nested, level by level, in the arms of the words before *)
 Theorem zspec_path : forall p d ws n nd par,
   dreach p d ws n nd par -> bins_built p ->
-  sublist ([Zx (lit "(" ++ last ws [] ++ lit ")")] ++ nl ++ args_block n nd (Some par)) (zspec_subs p d).
+  sublist ([Zx (lit "(" ++ last ws [] ++ lit ")")] ++ znl ++ args_block n nd (Some par)) (zspec_subs p d).
 Proof.
   induction 1 as [p d sc sd w Hin Hw|p d sc sd w ws n nd par Hin Hw Hr IH]; intros Hb.
-  - pose proof (zipd_in_fst _ _ _ _ _ Hin) as Hsc.
+  - pose proof (zipd_in_l _ _ _ _ _ Hin) as Hsc.
     eapply sublist_trans; [|apply (arm_in_section p d sc sd w Hin Hw)].
     destruct (arm_shape (args_block sc sd (Some p)) (zspec_subs sc sd) w) as (rest & -> & _).
     { apply args_block_nonnil. apply Hb. apply desc_child. exact Hsc. }
     cbn [last]. exists [], rest. rewrite <- !app_assoc. reflexivity.
-  - pose proof (zipd_in_fst _ _ _ _ _ Hin) as Hsc.
+  - pose proof (zipd_in_l _ _ _ _ _ Hin) as Hsc.
     assert (Hws : last (w :: ws) [] = last ws []) by (inversion Hr; reflexivity).
     rewrite Hws.
     eapply sublist_trans; [apply IH|].
@@ -904,7 +904,7 @@ Qed.
 Theorem zsh_script_path c d b ws n nd par :
   zsh_ok c b -> dreach c d ws n nd par ->
   exists s, zsh_script c d = Some s /\
-    sublist (zrender ([Zx (lit "(" ++ last ws [] ++ lit ")")] ++ nl ++ args_block n nd (Some par))) s.
+    sublist (zrender ([Zx (lit "(" ++ last ws [] ++ lit ")")] ++ znl ++ args_block n nd (Some par))) s.
 Proof.
   intros Hok Hr. destruct (zsh_pieces_shape c d b Hok) as (de & _ & Ep).
   unfold zsh_script. rewrite Ep. eexists; split; [reflexivity|]. apply sublist_render.
@@ -943,13 +943,13 @@ Qed.
 (** for EVERY node of the tree the file has the function [_<bin name with __>_commands] whose list is that node's
     subcommand list (the lookup by bin name from the root returns the node itself) *)
 Theorem details_cover c d b det n :
-  zsh_ok c b -> subcommand_details c d = Some det -> (n = c \/ desc c n) ->
+  zsh_ok c b -> zsubcommand_details c d = Some det -> (n = c \/ desc c n) ->
   exists nd, sublist (commands_function (bin_or_default n) (subcommands_of n nd)) det.
 Proof.
-  intros [Hb Hl Hns Hsn] Hd Hn. unfold subcommand_details in Hd. rewrite Hb in Hd.
+  intros [Hb Hl Hns Hsn] Hd Hn. unfold zsubcommand_details in Hd. rewrite Hb in Hd.
   destruct (all_subcommands_spec c (linked_bins_built _ Hl)) as (l & El & Hspec). rewrite El in Hd.
   match type of Hd with match map_opt ?F ?L with _ => _ end = _ => destruct (map_opt F L) as [rest|] eqn:Er; [|discriminate] end.
-  assert (Edet : det = zjoin nl (commands_function b (subcommands_of c d) :: rest)) by (injection Hd; intros <-; reflexivity).
+  assert (Edet : det = zjoin znl (commands_function b (subcommands_of c d) :: rest)) by (injection Hd; intros <-; reflexivity).
   clear Hd. subst det.
   destruct Hn as [->|Hdn].
   - exists d. unfold bin_or_default. rewrite Hb. apply sublist_zjoin. left. reflexivity.
@@ -1114,8 +1114,8 @@ Qed.
 (** the example tree: both files exist, the [add-all] arm carries the block of [add-all] (not that of [add]) *)
 Example zsh_example_paths :
   exists s, zsh_script zx_root cd0 = Some s /\
-    sublist (zrender ([Zx (lit "(add-all)")] ++ nl ++ args_block zx_add_all cd0 (Some zx_root))) s /\
-    sublist (zrender ([Zx (lit "(x)")] ++ nl ++ args_block (zx_leaf (lit "x") (lit "p add x")) cd0 (Some zx_add))) s.
+    sublist (zrender ([Zx (lit "(add-all)")] ++ znl ++ args_block zx_add_all cd0 (Some zx_root))) s /\
+    sublist (zrender ([Zx (lit "(x)")] ++ znl ++ args_block (zx_leaf (lit "x") (lit "p add x")) cd0 (Some zx_add))) s.
 Proof.
   destruct (zsh_script_path zx_root cd0 (lit "p") [lit "add-all"] zx_add_all cd0 zx_root zsh_ok_example) as (s & Es & H1).
   { apply dreach_one; [right; left; reflexivity|left; reflexivity]. }
@@ -1169,3 +1169,22 @@ Proof.
   intros Hb Hs. destruct (args_block_shape c d g Hb) as (segs & -> & _ & _ & _ & H). destruct (H Hs) as [H1 H2].
   split; apply sublist_zjoin; right; assumption.
 Qed.
+
+Theorem block_options c d g a ad :
+  c_bin c <> None -> In (a, ad) (zipd ad0 (c_args c) (cd_args d)) -> is_opt (a, ad) = true ->
+  (forall shorts s, get_short_and_visible_aliases a = Some shorts -> In s shorts ->
+     sublist (opt_short_line c g (a, ad) s) (args_block c d g)) /\
+  (forall longs l, get_long_and_visible_aliases a = Some longs -> In l longs ->
+     sublist (opt_long_line c g (a, ad) l) (args_block c d g)).
+Proof.
+  intros Hb Hin Ho. split; intros l x E Hx.
+  - exact (block_opt_lines c d g a ad _ Hb Hin Ho (opt_lines_short c g (a, ad) l x E Hx)).
+  - exact (block_opt_lines c d g a ad _ Hb Hin Ho (opt_lines_long c g (a, ad) l x E Hx)).
+Qed.
+
+Theorem option_spellings_complete a :
+  (forall s, a_short a = Some s -> exists l, get_short_and_visible_aliases a = Some l /\ In s l /\
+                                             forall x, In (x, true) (a_short_aliases a) -> In x l) /\
+  (forall s, a_long a = Some s -> exists l, get_long_and_visible_aliases a = Some l /\ In s l /\
+                                            forall x, In (x, true) (a_aliases a) -> In x l).
+Proof. split; [exact (shorts_list_complete a)|exact (longs_list_complete a)]. Qed.
